@@ -15,7 +15,7 @@ FLAGS = {'F1_fixed': True, 'F2_fixed': True, 'F3_fixed': True, 'F4_fixed': True}
 OPTS = dict(pack='*', lang='en', defs=docgen.DEFS)
 
 
-def run_source(src):
+def run_source(src, **extra):
     import os
     d = sut.scratch_dir()
     if os.getcwd() != d:
@@ -28,7 +28,7 @@ def run_source(src):
             with open(os.path.join(d, name), 'wb') as fh:
                 fh.write(data)
     with watchdog(20):
-        (plain, pos), err = sut.tex2txt(src, **OPTS)
+        (plain, pos), err = sut.tex2txt(src, **dict(OPTS, **extra))
     return plain, list(pos), err
 
 
